@@ -82,6 +82,13 @@ class Live:
         self.down.update(d)
         return self.down
 
+    def await_down(self, timeout: float = 40.0) -> Dict[str, Any]:
+        """Keep waiting for the DOWN line of a SHUTDOWN that has not completed yet."""
+        tag, d = self._read(timeout)
+        self.down = {'tag': tag}
+        self.down.update(d)
+        return self.down
+
     def exit(self) -> bool:
         """Tell the (shut down, still living) driver to exit.  False if it does not exit."""
         assert self.proc.stdin is not None
@@ -220,6 +227,23 @@ def listening(pids: List[int]) -> Dict[str, Any]:
     except OSError:
         pass
     return {'tcp': tcp, 'unix': unix, 'tcp_inodes': tcp_inodes}
+
+
+def tcp_sockets(port: int) -> List[Tuple[str, str]]:
+    """(local address, state) of every TCP socket of the machine whose local port is `port` ('0A' = LISTEN, '06' = TIME_WAIT)."""
+    out = []
+    for fn in ('/proc/net/tcp', '/proc/net/tcp6'):
+        try:
+            with open(fn) as f:
+                next(f)
+                for line in f:
+                    parts = line.split()
+                    addr, st = parts[1], parts[3]
+                    if int(addr.rsplit(':', 1)[1], 16) == port:
+                        out.append((addr, st))
+        except (OSError, StopIteration):
+            pass
+    return out
 
 
 def free_port(host: str) -> int:
